@@ -389,11 +389,19 @@ fn configs(g: &Group, tier: Tier) -> Vec<Config> {
 	let mut out = vec![];
 	// no placed file: every watch (none, each directory, a file in each directory).
 	// one placed file: every slot x every content x {no watch, each directory watch}
-	//   (quick: marker modes off/all; thorough: all marker modes, with a VCS option only
-	//   without a watch)
+	//   (quick: marker mode all, and marker mode off without a watch; thorough: all marker
+	//   modes, with a VCS option only without a watch)
 	for w in &watches {
 		out.push(Config { files: vec![], watch: w.clone() });
-		let singles_here = if thorough { !is_file_watch(w) && (g.vcs == Vcs::None || w.is_none()) } else { g.marker != Marker::Leaves && !is_file_watch(w) };
+		let singles_here = if thorough {
+			!is_file_watch(w) && (g.vcs == Vcs::None || w.is_none())
+		} else {
+			match g.marker {
+				Marker::Off => w.is_none(),
+				Marker::All => !is_file_watch(w),
+				Marker::Leaves => false,
+			}
+		};
 		if !singles_here {
 			continue;
 		}
@@ -409,11 +417,11 @@ fn configs(g: &Group, tier: Tier) -> Vec<Config> {
 	//             (.ignore,.hgignore), (.hgignore,.ignore) across directories and all three
 	//             mixed pairs inside one directory; origin-level/explicit slots pair with
 	//             .gitignore slots only; 5x5 contents
-	//   quick:    reduced, no VCS option, marker modes all/leaves
+	//   quick:    reduced, no VCS option, marker mode leaves
 	//   thorough: full on the 19 quick shapes (no VCS: all marker modes; git: all/leaves),
 	//             reduced on the larger shapes (no VCS, marker modes all/leaves)
 	let full = thorough && g.small && ((g.vcs == Vcs::None) || (g.vcs == Vcs::Git && g.marker != Marker::Off));
-	let reduced = !full && g.vcs == Vcs::None && g.marker != Marker::Off && (!thorough || !g.small);
+	let reduced = !full && g.vcs == Vcs::None && if thorough { g.marker != Marker::Off && !g.small } else { g.marker == Marker::Leaves };
 	if !full && !reduced {
 		return out;
 	}
@@ -453,7 +461,7 @@ fn items(tier: Tier) -> Vec<Item> {
 			for marker in [Marker::Off, Marker::All, Marker::Leaves] {
 				let g = Group { dirs: dirs.clone(), shape: shape.clone(), vcs: *vcs, marker, small: small.contains(&shape) };
 				let cfgs = configs(&g, tier);
-				for chunk in cfgs.chunks(400) {
+				for chunk in cfgs.chunks(if tier == Tier::Thorough { 400 } else { 120 }) {
 					out.push(Item { group: g.clone(), configs: chunk.to_vec() });
 				}
 			}
@@ -855,11 +863,12 @@ fn eval_config(ctx: &Ctx, g: &Group, mat: &Mat, cfg: &Config) -> Eval {
 				}
 				cur = x.parent();
 			}
-			let (key, detail) = if let Some((pd, r)) = why {
+			let is_empty = disk.files.get(&relp).map_or(false, String::is_empty) || (Path::new(&relp).is_absolute() && disk.excludes.as_deref() == Some(""));
+			let (key, detail) = if is_empty {
+				("C14/returned-empty-file".to_string(), format!("{relp} is empty but was returned"))
+			} else if let Some((pd, r)) = why {
 				let class = if r.starts_with("ignored by") { "ignored-directory" } else { r.as_str() };
 				(format!("C14/returned-from-pruned-subtree/{class}"), format!("{relp} returned, but directory {pd:?} must not be entered: {r}"))
-			} else if disk.files.get(&relp).map_or(false, String::is_empty) || (Path::new(&relp).is_absolute() && disk.excludes.as_deref() == Some("")) {
-				("C14/returned-empty-file".to_string(), format!("{relp} is empty but was returned"))
 			} else {
 				("C14/returned-unexpected-file".to_string(), format!("{relp} returned (applies_in={:?}) but is not an applicable ignore file", e.applies_in))
 			};
